@@ -58,8 +58,12 @@ def run(run, binfo):
         for d in defaults:
             for q in queried:
                 for roles in ROLESETS:
-                    cases.append(base_case(rules=rules, default=d, rule=('name', q),
-                                           creds={'roles': roles}))
+                    c = base_case(rules=rules, default=d, rule=('name', q), creds={'roles': roles})
+                    # how the rule set reaches the enforcer must not matter: a dict, or a Rules object
+                    # carrying the same / another / no default rule of its own
+                    c['carrier'] = ['rules_same', 'dict', 'rules_other', 'rules_none'][len(cases) % 4]
+                    c['carrier_default'] = 'a' if (len(cases) // 4) % 2 else 'b'
+                    cases.append(c)
     run.count('cases', len(cases))
     bad_corr = []
     for c, (mres, mtr, ires, itr) in zip(cases, run_cases(cases)):
